@@ -542,7 +542,19 @@ def op_fill_holes(run, ctx):
     feat = hole_features(ctx.V, ctx.F, groups)
     run.state("fill_holes_input", tuple(feat.values()) + (ctx.mclass,))
     t_orig = topo(ctx.F)
-    m = G.to_trimesh(ctx.V, Fin)
+    if ctx.opts.get("arrival") == "inverted_warm":
+        # the mesh arrives at these faces through a history: built inside out, queried (edges,
+        # adjacency, watertightness cached), then turned right side out by the library's own
+        # invert() - what was cached for the reversed faces must not steer the hole filling
+        m = G.to_trimesh(ctx.V, np.ascontiguousarray(Fin[:, ::-1]))
+        _ = m.is_watertight, m.edges, m.face_adjacency, m.is_winding_consistent
+        m.invert()
+        if not np.array_equal(np.asarray(m.faces), Fin):
+            run.skip("fill_holes: invert() did not return the faces (judged elsewhere)")
+            return
+        run.count("fill_holes_after_query_and_invert")
+    else:
+        m = G.to_trimesh(ctx.V, Fin)
     if cached:
         m.face_normals  # noqa
     try:
@@ -1069,6 +1081,8 @@ def workload(run):
                     plans.append(g)
             for gi, g in enumerate(plans):
                 execute(run, make_case("fill_holes", tag, V, F, groups=g, cached=bool(gi % 2), route=("method", "function")[gi % 3 == 2]))
+                if gi % 2 == 0:
+                    execute(run, make_case("fill_holes", tag, V, F, groups=g, cached=bool(gi % 4), route="method", arrival="inverted_warm"))
         # ---- subdivide, all faces and subsets
         if n <= 120:
             execute(run, make_case("subdivide", tag, V, F, subset=None, route="function"))
